@@ -418,7 +418,7 @@ macro_rules! h_take {
         }
     };
 }
-h_take!(c20_nd_take_rows_2x3_std, 2, 3, Lay::Std, [1usize, 0, 1], 0, 3, 3, 8);
+h_take!(c20_nd_take_rows_2x3_std, 2, 3, Lay::Std, [1usize, 0, 1], 0, 3, 3, 12);
 h_take!(c20_nd_take_rows_2x3_tr, 2, 3, Lay::Tr, [1usize, 1], 0, 2, 3, 8);
 h_take!(c20_nd_take_cols_2x3_std, 2, 3, Lay::Std, [2usize, 0], 1, 2, 2, 8);
 h_take!(c20_nd_take_cols_2x3_tr, 2, 3, Lay::Tr, [2usize, 0, 2, 1], 1, 2, 4, 8);
@@ -444,7 +444,7 @@ macro_rules! h_eye {
 }
 h_eye!(c20_nd_eye_1, 1, 6);
 h_eye!(c20_nd_eye_2, 2, 6);
-h_eye!(c20_nd_eye_3, 3, 8);
+h_eye!(c20_nd_eye_3, 3, 12);
 
 macro_rules! h_fill {
     ($name:ident, $r:expr, $c:expr, $unw:expr) => {
